@@ -10,6 +10,7 @@ from .parser import Parser
 from .compiler import Compiler
 from .vm import VM
 from .values import (
+    MAX_ARRAY_LENGTH,
     UNDEFINED,
     NULL,
     JSValue,
@@ -37,7 +38,7 @@ from .errors import (
 )
 
 # Largest element count (or byte length) the array constructors allocate
-_MAX_ARRAY_LENGTH = 2**28
+_MAX_ARRAY_LENGTH = MAX_ARRAY_LENGTH
 
 
 def _array_length(value: JSValue) -> int:
